@@ -74,6 +74,52 @@ def run(pid):
     rep.cov["overlapping_flush_probes"] = len(pr)
     for t, rules in by.items():
         rep.violation("rules %s" % ",".join(rules), {"engine": "conc", "scenario": pr[t], "rules": rules})
+    # lock probes between foreground calls: t1 parked after its i-th yield point (the stop set includes the primary reads,
+    # one of which lies INSIDE Index.Put under the bucket lock), t2 run to completion, then the rest. On the unchanged code
+    # t2 blocks wherever the bucket lock protects t1's section; if the lock is narrowed the interleaving happens.
+    evict = [{"op": "put", "k": "C", "v": 1}, {"op": "flush"}, {"op": "rem", "k": "C"}, {"op": "flush"}]
+    menu = [{"op": "put", "k": k, "v": v} for k in ("A", "B") for v in (1, 2)] + [{"op": o, "k": k, "v": 0} for o in ("get", "rem") for k in ("A", "B")]
+    lp = []
+    pstops = conceng.CLIENT_STOPS + ["priget.before", "pri.get.afterCached"]
+    for init in ([], ["A"], ["A", "B"]):
+        for o1 in menu:
+            for o2 in menu:
+                if o1["k"] == o2["k"] and o1["op"] != "get" and o2["op"] != "get" and not (o1["op"] == "put" and o2["op"] == "put"):
+                    continue      # same-key writer pairs other than put/put: known finding KF-C05-same-key-writers-a
+                for i in range(1, 8):
+                    lp.append({"prog": {"t1": o1, "t2": o2}, "init": init, "imm": False, "schedule": ["t1"] * i + ["t2"] * 12 + ["t1"] * 12 + ["t2"] * 12,
+                               "stops": pstops, "setup": evict, "il": 1 << 30, "pl": 1 << 30})
+    if not thorough:
+        lp = rng.sample(lp, 500)
+    by = conceng.judge(rep, lp, "lp")
+    total += len(lp)
+    rep.cov["foreground_lock_probes"] = len(lp)
+    for t, rules in by.items():
+        rep.violation("rules %s" % ",".join(rules), {"engine": "conc", "scenario": lp[t], "rules": rules})
+    # free-running histories: started flusher (1 ms), 2 extra Flush callers, 4 single-writer writers and 4 readers over keys
+    # that share buckets and prefixes; RegTrace.tla checks the atomic-register conditions per key and the final contents
+    rounds = 24 if thorough else 8
+    st = [dict(buckets=[4, 16][i % 2], writers=4, readers=4, keys=[32, 64][i % 2], writes=1500, reads=2000, flushers=2, idxgc=False, prigc=False, gate=False,
+               lowUse=101, pl=[4096, 1 << 30][i % 2], il=[2048, 1 << 30][(i // 2) % 2], owngc=False, seed=vlib.seed() * 100 + i) for i in range(rounds)]
+    # all scenarios of one harness run share the bucket count: two runs
+    for nb in (4, 16):
+        part = [x for x in st if x["buckets"] == nb]
+        d = vlib.subdir("c05.stress%d" % nb)
+        sf = os.path.join(d, "scen.ndjson")
+        vlib.write_ndjson(sf, part)
+        files, summ = vlib.run_harness("stress", sf, os.path.join(d, "trace"), workers=min(4, vlib.WORKERS), timeout=3000)
+        bad, nlines, _ = vlib.validate_traces("RegTrace", "RegTrace.cfg", files)
+        rep.cov["evaluations"] += nlines
+        rep.cov["traces_validated_against_impl"] += len(part)
+        rep.cov["free_running_events"] = rep.cov.get("free_running_events", 0) + nlines
+        seen = {}
+        for b in bad:
+            seen.setdefault(b["t"], set()).add(b["rule"])
+        for c in summ.get("crashed", []):
+            seen.setdefault(c["t"], set()).add("process-crash-or-hang")
+        for t, rules in seen.items():
+            rep.violation("free-running history: %s" % ",".join(sorted(rules)), {"engine": "stress", "scenario": part[t], "rules": sorted(rules)})
+        total += len(part)
     # known finding: pinned witness, executed separately
     for w, sc in witnesses(pid, "findings"):
         by = conceng.judge(rep, [sc], "kf")
